@@ -506,15 +506,6 @@ fn exhaustive(ctx: &Ctx, max_len: usize) {
 }
 
 pub fn run(ctx: &Ctx) -> i32 {
-    // warm-up (lazy statics of std / proptest)
-    let _ = check(&Case {
-        elem: 3,
-        init_len: 2,
-        spare: 1,
-        from_default: false,
-        tramp: true,
-        ops: vec![Op::Push(1), Op::InsertFar(3), Op::Clone(true)],
-    });
     if ctx.is_replay() {
         ctx.run("random-long", 1, case_strategy(4), check);
         ctx.run("exhaustive-short", 1, case_strategy(4), check);
